@@ -7,7 +7,6 @@ normal-form keys.  What an execution reads and writes, and whether a recorded se
 """
 import concurrent.futures as cf
 import copy
-import os
 
 from . import lib_fm as F
 from .lib_fm import V, N, R, op, call, el, cmp_, assign, decl, unit, NONE
@@ -259,9 +258,6 @@ class DGen(F.Gen):
         number(prog)
         return prog
 
-    def index(self, arr, dim, scalars, simple=None):
-        return super().index(arr, dim, scalars, simple)
-
 
 FEATURES = ('select', 'while', 'call', 'exitcycle', 'section', 'fcall', 'twod', 'assoc', 'where', 'pattern')
 
@@ -506,7 +502,7 @@ def run_cases(ctx, label, cases, entry='kernel', shards=None, timeout=2400):
         except Exception as ex:  # pylint: disable=broad-except
             import traceback
             tb = traceback.extract_tb(ex.__traceback__)
-            fr = next((f for f in reversed(tb) if '/loki/' in f.filename), tb[-1])
+            fr = next((f for f in reversed(tb) if '/loki/analyse/' in f.filename and not f.name.startswith('<')), tb[-1])
             p['raised'] = {'type': type(ex).__name__, 'where': fr.name, 'msg': str(ex)[:300], 'tb': ''.join(traceback.format_exception(ex))[-1500:]}
             stats['analysis_raised'] += 1
             continue
